@@ -212,8 +212,12 @@ func newWorker(id int, prog *ssa.Program, hpkg, zpkg *ssa.Package) (w *Worker, e
 			w.solver.send(lv.text.String())
 		}
 	}
-	if *flagTrace != "" && id == 0 {
-		f, _ := os.Create(*flagTrace)
+	if *flagTrace != "" {
+		name := *flagTrace
+		if id > 0 {
+			name += fmt.Sprintf(".%d", id)
+		}
+		f, _ := os.Create(name)
 		w.solver.log = f
 	}
 	if *flagCross != "" {
@@ -469,6 +473,9 @@ func (w *Worker) runPath(fn *ssa.Function, item WorkItem) {
 		st.PathsViolation++
 	case "error":
 		st.PathsError++
+		if *flagVerbose && strings.HasPrefix(detail, "engine crash") {
+			fmt.Fprintln(os.Stderr, detail)
+		}
 		if len(detail) > 300 {
 			detail = detail[:300]
 		}
